@@ -18,6 +18,22 @@ SRC_EXT = {
 KNOWN_DIRECTIVES = {"define", "undef", "include", "if", "ifdef", "ifndef", "elif", "else", "endif",
                     "pragma"}
 EXEMPT_DIRECTIVES = {"line", "warning", "error"}
+BUILTIN_COMPILERS = {"gcc", "g++", "clang", "clang++", "icx", "icpx", "nvcc"}
+
+
+def compiler_passes(compiler, other):
+    """Built-in multi-pass behaviour (documented under 'Emulating compiler behavior') for plain
+    command lines: -> list of per-pass extra -D lists, default pass first."""
+    omp = ["_OPENMP"] if "-fopenmp" in other else []
+    if compiler in ("icx", "icpx"):
+        sycl = ["SYCL_LANGUAGE_VERSION"] if "-fsycl" in other else []
+        return [omp + sycl, ["__SYCL_DEVICE_ONLY__", "__SPIR__", "__SPIRV__", "SYCL_LANGUAGE_VERSION"]]
+    if compiler == "nvcc":
+        base = ["__NVCC__", "__CUDACC__"]
+        return [base + omp, base + ["__CUDA_ARCH__=700"]]
+    if compiler in ("gcc", "g++", "clang", "clang++"):
+        return [omp]
+    return [[]]
 
 
 class InvalidWorld(Exception):
@@ -354,31 +370,38 @@ class Model:
                 if fault:
                     db_events.append((p["name"], ei, fault, entry_paths(e, self.root)[1]))
                     continue
-                cfg = entry_config(e, self.root)
-                tu = TU(self, cfg, (p["name"], ei)).run()
-                tus += 1
-                lookups += tu.lookups
-                seen = {}
-                for sp, form, cd, res, nc in tu.lookup_log:
-                    if nc > 1:
-                        probes["ambiguous_lookup"] += 1
-                    for (f2, cd2), r2 in seen.get(sp, {}).items():
-                        if (f2, cd2) != (form, cd):
-                            probes["same_spelling_other_ctx"] += 1
-                            if r2 != res:
-                                probes["same_spelling_other_result"] += 1
-                            break
-                    seen.setdefault(sp, {})[(form, cd)] = res
-                if tu.once:
-                    probes["once_headers"] += len(tu.once)
-                reached |= tu.reached
-                for rel, ls in tu.used.items():
-                    d = used.setdefault(rel, {})
-                    for l in ls:
-                        d.setdefault(l, set()).add(p["name"])
-                events += [(p["name"], ei) + ev for ev in tu.events]
+                cfg0 = entry_config(e, self.root)
+                for extra in compiler_passes(cfg0["compiler"], cfg0["other"]):
+                    cfg = dict(cfg0)
+                    cfg["defines"] = list(cfg0["defines"]) + extra
+                    tu = TU(self, cfg, (p["name"], ei)).run()
+                    tus += 1
+                    lookups += tu.lookups
+                    reached |= tu.reached
+                    for rel, ls in tu.used.items():
+                        d = used.setdefault(rel, {})
+                        for l in ls:
+                            d.setdefault(l, set()).add(p["name"])
+                    events += [(p["name"], ei) + ev for ev in tu.events]
+                    self._probe(tu, probes)
         return {"used": used, "events": events, "db_events": db_events, "reached": reached,
                 "tus": tus, "lookups": lookups, "probes": probes}
+
+    @staticmethod
+    def _probe(tu, probes):
+        seen = {}
+        for sp, form, cd, res, nc in tu.lookup_log:
+            if nc > 1:
+                probes["ambiguous_lookup"] += 1
+            for (f2, cd2), r2 in seen.get(sp, {}).items():
+                if (f2, cd2) != (form, cd):
+                    probes["same_spelling_other_ctx"] += 1
+                    if r2 != res:
+                        probes["same_spelling_other_result"] += 1
+                    break
+            seen.setdefault(sp, {})[(form, cd)] = res
+        if tu.once:
+            probes["once_headers"] += len(tu.once)
 
     def unknown_directives(self, parsed):
         """Static unknown-directive occurrences in the given parsed files -> [(rel, line, name)]"""
